@@ -2,6 +2,9 @@
 // and FUSE file systems) Fs::readDirFromDIR falls back to lstat and then (a) pushes DIRECTORIES into `files` instead
 // of `dirs`, and (b) tests `st_mode & S_IFREG`, which is also true for symlinks (S_IFLNK = S_IFREG|S_IFCHR).
 // oomd then sees no child cgroups at all.  The demo interposes readdir() to blank d_type, as such a file system would.
+#ifndef DEMO_TMP
+#define DEMO_TMP "/tmp/oomd_demo"   /* scratch directory; replay/replay.py passes -DDEMO_TMP=... */
+#endif
 #include <dirent.h>
 #include <dlfcn.h>
 #include <sys/stat.h>
@@ -31,7 +34,7 @@ static void show(const char* what, const Fs::DirEnts& de) {
   std::cout << what << ": dirs={"; for (auto& s : dirs) std::cout << s << " "; std::cout << "} files={"; for (auto& s : files) std::cout << s << " "; std::cout << "}\n";
 }
 int main() {
-  const std::string root = "/tmp/w/d15/tree";
+  const std::string root = DEMO_TMP "/tree";
   ::mkdir(root.c_str(), 0755); ::mkdir((root + "/child.slice").c_str(), 0755);
   { std::ofstream(root + "/memory.current") << "1\n"; }
   ::unlink((root + "/alink").c_str()); if (::symlink("memory.current", (root + "/alink").c_str())) {}
